@@ -1,8 +1,645 @@
-//! C16 - not built yet
+//! C16 - cancelling a pending send or recv loses nothing and corrupts nothing.
+//!
+//! Cancel-point enumeration on the real links: the recv / send future is polled by hand and, for every
+//! k up to completion, dropped after its k-th poll (the system runs to quiescence between polls);
+//! repeated cancellation as in a select! loop; then the operation is retried.
+use crate::scen;
+use fe2o3_amqp::link::receiver::CreditMode;
+use fe2o3_amqp::link::{Receiver, Sender};
+use fe2o3_amqp::Session;
+use fe2o3_amqp_types::definitions::{Handle, SenderSettleMode};
+use fe2o3_amqp_types::messaging::message::__private::Serializable;
+use fe2o3_amqp_types::messaging::{Body, Message};
+use fe2o3_amqp_types::performatives::*;
+use serde_amqp::Value;
+use serde_json::json;
+use std::sync::Arc;
+use std::time::Duration;
+use vlib::peer::{drive, settle, trace_to_strings, Auto, Body as WBody, Dirn};
 use vlib::report::{Ctx, Outcome};
+use vlib::runner::{run_exec, RunCfg, Scenario};
+use vlib::util::{h64, par_map};
 
-pub fn run(_ctx: &Ctx) -> Outcome {
-    let mut out = Outcome::new("model_checking");
-    out.machinery_errors.push("check C16 is not built yet".into());
+#[derive(Debug, Clone, Copy, PartialEq, Eq, Hash)]
+pub struct RecvCase {
+    /// frames per message (1 or 3)
+    pub frames: usize,
+    pub auto_accept: bool,
+    /// the first `cancels` recv futures are dropped after `k` polls each
+    pub k: usize,
+    pub cancels: usize,
+    /// frames arrive one per quiescent step (true) or all messages at once before the first poll (false)
+    pub stepwise: bool,
+}
+
+#[derive(Debug, Clone, Default)]
+pub struct RecvObs {
+    pub received: Vec<String>,
+    pub errors: Vec<String>,
+    pub sent: Vec<String>,
+    pub polls_needed_max: usize,
+    pub cancelled_with_progress: usize,
+    pub trace: Vec<String>,
+    pub machinery: Option<String>,
+}
+
+const N_MSGS: usize = 3;
+
+fn msg_payload(i: usize, frames: usize) -> (String, Vec<u8>) {
+    let body = if frames == 1 { format!("m{i}") } else { format!("m{i}-{}", "x".repeat(60)) };
+    let p = serde_amqp::to_vec(&Serializable(Message::builder().value(body.clone()).build())).unwrap();
+    (body, p)
+}
+
+pub async fn recv_scenario(case: RecvCase) -> RecvObs {
+    let mut obs = RecvObs::default();
+    let mut auto = Auto::default();
+    auto.max_frame_size = 4096;
+    let mut c = match scen::open_client(auto, 4096).await {
+        Ok(c) => c,
+        Err(e) => {
+            obs.machinery = Some(e);
+            return obs;
+        }
+    };
+    let mut session = match scen::begin(&mut c, Session::builder()).await {
+        Ok(s) => s,
+        Err(e) => {
+            obs.machinery = Some(e);
+            return obs;
+        }
+    };
+    let r = drive(
+        &mut c.peer,
+        Receiver::builder().name("r").source("q").credit_mode(CreditMode::Auto(10)).auto_accept(case.auto_accept).attach(&mut session),
+        scen::H,
+    )
+    .await;
+    let mut receiver = match r {
+        Some(Ok(r)) => r,
+        other => {
+            obs.machinery = Some(format!("attach failed: {:?}", other.map(|r| r.map(|_| ()).map_err(|e| e.to_string()))));
+            return obs;
+        }
+    };
+    let our_handle = c.peer.links.last().map(|l| l.our_handle).unwrap_or(0);
+    settle(&mut c.peer, 1).await;
+    // the frames the peer will send: N messages, each in `frames` pieces
+    let mut wire: Vec<(Transfer, Vec<u8>)> = vec![];
+    for i in 0..N_MSGS {
+        let (body, p) = msg_payload(i, case.frames);
+        obs.sent.push(body);
+        let n = case.frames;
+        let chunk = (p.len() + n - 1) / n;
+        for (j, piece) in p.chunks(chunk).enumerate() {
+            let last = (j + 1) * chunk >= p.len();
+            let t = Transfer {
+                handle: Handle(our_handle),
+                delivery_id: if j == 0 { Some(i as u32) } else { None },
+                delivery_tag: if j == 0 { Some(serde_bytes::ByteBuf::from(vec![i as u8])) } else { None },
+                message_format: if j == 0 { Some(0) } else { None },
+                settled: Some(false),
+                more: !last,
+                rcv_settle_mode: None,
+                state: None,
+                resume: false,
+                aborted: false,
+                batchable: false,
+            };
+            wire.push((t, piece.to_vec()));
+        }
+    }
+    let mut next_frame = 0usize;
+    if !case.stepwise {
+        for (t, p) in &wire {
+            c.peer.send_perf(0, Performative::Transfer(t.clone()), p);
+        }
+        next_frame = wire.len();
+        settle(&mut c.peer, 2).await;
+    }
+    let mut cancels_left = case.cancels;
+    let mut guard = 0;
+    while obs.received.len() + obs.errors.len() < N_MSGS && guard < 200 {
+        guard += 1;
+        let frames_before = next_frame;
+        let mut fut = Box::pin(receiver.recv::<Value>());
+        let mut polls = 0usize;
+        let limit = if cancels_left > 0 { Some(case.k) } else { None };
+        let mut done = None;
+        loop {
+            if let Some(l) = limit {
+                if polls >= l {
+                    break;
+                }
+            }
+            // one more frame arrives, the system settles, then the application polls its future
+            if case.stepwise && next_frame < wire.len() {
+                let (t, p) = &wire[next_frame];
+                c.peer.send_perf(0, Performative::Transfer(t.clone()), p);
+                next_frame += 1;
+            }
+            settle(&mut c.peer, 1).await;
+            polls += 1;
+            match futures_util::poll!(fut.as_mut()) {
+                std::task::Poll::Ready(r) => {
+                    done = Some(r);
+                    break;
+                }
+                std::task::Poll::Pending => {}
+            }
+            if polls > 40 {
+                break;
+            }
+        }
+        obs.polls_needed_max = obs.polls_needed_max.max(polls);
+        drop(fut);
+        match done {
+            Some(Ok(d)) => {
+                let b = match d.body() {
+                    Value::String(s) => s.clone(),
+                    o => format!("{:?}", o),
+                };
+                obs.received.push(b);
+                if !case.auto_accept {
+                    let _ = drive(&mut c.peer, receiver.accept(&d), scen::H).await;
+                }
+            }
+            Some(Err(e)) => {
+                obs.errors.push(e.to_string());
+            }
+            None => {
+                if limit.is_some() {
+                    cancels_left -= 1;
+                    if next_frame > frames_before {
+                        obs.cancelled_with_progress += 1;
+                    }
+                } else {
+                    // not cancelled and still pending after 40 polls with everything delivered: a lost delivery
+                    break;
+                }
+            }
+        }
+    }
+    settle(&mut c.peer, 2).await;
+    obs.trace = trace_to_strings(&c.peer.trace);
+    drop(receiver);
+    obs
+}
+
+fn judge_recv(case: &RecvCase, o: &RecvObs) -> Vec<(String, String)> {
+    let mut f = vec![];
+    let what = format!("{:?}", case);
+    if !o.errors.is_empty() {
+        f.push((
+            format!("recv-error-after-cancel frames={} {}", case.frames, if case.k == 0 { "k=0" } else { "k>0" }),
+            format!("{what}: after cancelled recv futures a later recv returned {:?}; sent {:?}, received {:?}", o.errors, o.sent, o.received),
+        ));
+    }
+    if o.received != o.sent && o.errors.is_empty() {
+        let kind = if o.received.len() < o.sent.len() {
+            "delivery-lost"
+        } else if o.received.len() > o.sent.len() {
+            "delivery-duplicated"
+        } else {
+            "delivery-changed-or-reordered"
+        };
+        f.push((
+            format!("{kind} frames={} auto_accept={}", case.frames, case.auto_accept),
+            format!("{what}: the completed recv calls returned {:?}, the peer sent {:?}", o.received, o.sent),
+        ));
+    }
+    f
+}
+
+// ------------------------------------------------------------------------------------------------ send
+#[derive(Debug, Clone, Copy, PartialEq, Eq, Hash)]
+pub struct SendCase {
+    /// body size class: 0 = small (1 frame), 1 = large (3 frames at max-frame-size 512)
+    pub large: bool,
+    pub settled: bool,
+    /// credit available when the cancelled send starts
+    pub credit_first: bool,
+    pub k: usize,
+    pub cancels: usize,
+    /// link->session channel capacity (session buffer size)
+    pub buffer: usize,
+    /// the transport's write side is stalled while the cancelled send runs
+    pub stalled: bool,
+}
+
+#[derive(Debug, Clone, Default)]
+pub struct SendObs {
+    /// bodies of complete deliveries seen by the peer, in order
+    pub delivered: Vec<String>,
+    pub partial: bool,
+    pub later_results: Vec<String>,
+    pub later_hung: bool,
+    pub cancelled_after_transfer_written: usize,
+    pub panics_hint: bool,
+    pub trace: Vec<String>,
+    pub machinery: Option<String>,
+}
+
+pub async fn send_scenario(case: SendCase) -> SendObs {
+    let mut obs = SendObs::default();
+    let mut auto = Auto::default();
+    auto.max_frame_size = 512;
+    auto.incoming_window = 100_000;
+    let mut c = match scen::open_client(auto, 512).await {
+        Ok(c) => c,
+        Err(e) => {
+            obs.machinery = Some(e);
+            return obs;
+        }
+    };
+    let mut session = match scen::begin(&mut c, Session::builder().buffer_size(case.buffer)).await {
+        Ok(s) => s,
+        Err(e) => {
+            obs.machinery = Some(e);
+            return obs;
+        }
+    };
+    let s = drive(
+        &mut c.peer,
+        Sender::builder()
+            .name("s")
+            .target("q")
+            .sender_settle_mode(if case.settled { SenderSettleMode::Settled } else { SenderSettleMode::Unsettled })
+            .attach(&mut session),
+        scen::H,
+    )
+    .await;
+    let mut sender = match s {
+        Some(Ok(s)) => s,
+        other => {
+            obs.machinery = Some(format!("attach failed: {:?}", other.map(|r| r.map(|_| ()).map_err(|e| e.to_string()))));
+            return obs;
+        }
+    };
+    let lib_handle = c.peer.links.last().map(|l| l.lib_handle).unwrap_or(0);
+    settle(&mut c.peer, 1).await;
+    // the receiver grants one credit at a time: a leaked credit starves the link
+    if case.credit_first {
+        c.peer.grant(0, lib_handle, 1);
+        settle(&mut c.peer, 1).await;
+    }
+    let mk = |tag: &str, large: bool| -> Message<fe2o3_amqp_types::messaging::AmqpValue<String>> {
+        let body = if large { format!("{tag}-{}", "y".repeat(1100)) } else { tag.to_string() };
+        Message::builder().value(body).build()
+    };
+    // ---- the cancelled sends
+    for n in 0..case.cancels {
+        if case.stalled {
+            c.pipe.stall_writes(0, true);
+        }
+        {
+            let mut fut = Box::pin(sender.send(mk(&format!("cancelled{n}"), case.large)));
+            let mut polls = 0;
+            let mut finished = false;
+            while polls < case.k {
+                polls += 1;
+                if let std::task::Poll::Ready(_) = futures_util::poll!(fut.as_mut()) {
+                    finished = true;
+                    break;
+                }
+                // quiescence between polls; grant credit after the first poll if it was not there
+                if !case.credit_first && polls == 1 {
+                    c.peer.grant(0, lib_handle, 1);
+                }
+                tokio::time::sleep(Duration::from_millis(1)).await;
+                if !case.stalled {
+                    c.peer.pump();
+                }
+            }
+            drop(fut);
+            let _ = finished;
+        }
+        if case.stalled {
+            c.pipe.stall_writes(0, false);
+        }
+        settle(&mut c.peer, 2).await;
+        let wrote = c.peer.trace.iter().any(|w| w.dir == Dirn::FromLib && matches!(&w.body, WBody::Perf(Performative::Transfer(_))));
+        if wrote {
+            obs.cancelled_after_transfer_written += 1;
+        }
+        // accept whatever complete delivery arrived (the receiver cannot know the send was cancelled) and re-grant
+        accept_and_regrant(&mut c.peer, lib_handle);
+        settle(&mut c.peer, 2).await;
+    }
+    // ---- later sends must be delivered intact, in order, and must not starve
+    for n in 0..2 {
+        accept_and_regrant(&mut c.peer, lib_handle);
+        let mut fut = Box::pin(sender.send(mk(&format!("later{n}"), n == 1 && case.large)));
+        let mut res = None;
+        for _ in 0..60 {
+            if let std::task::Poll::Ready(r) = futures_util::poll!(fut.as_mut()) {
+                res = Some(r);
+                break;
+            }
+            tokio::time::sleep(Duration::from_millis(1)).await;
+            c.peer.pump();
+            accept_and_regrant(&mut c.peer, lib_handle);
+        }
+        drop(fut);
+        match res {
+            Some(r) => obs.later_results.push(format!("{:?}", r.map(|o| format!("{:?}", o)).map_err(|e| e.to_string()))),
+            None => {
+                obs.later_hung = true;
+                break;
+            }
+        }
+    }
+    settle(&mut c.peer, 2).await;
+    // what the peer saw
+    let mut cur: Option<Vec<u8>> = None;
+    for w in c.peer.trace.iter().filter(|w| w.dir == Dirn::FromLib) {
+        if let WBody::Perf(Performative::Transfer(t)) = &w.body {
+            if t.delivery_id.is_some() && cur.is_some() {
+                // a new delivery starts while the previous one never finished
+                obs.partial = true;
+            }
+            let mut b = if t.delivery_id.is_some() { vec![] } else { cur.take().unwrap_or_default() };
+            if t.delivery_id.is_some() {
+                cur = None;
+            }
+            b.extend_from_slice(&w.payload);
+            if t.more {
+                cur = Some(b);
+            } else if !t.aborted {
+                let tag = serde_amqp::from_slice::<fe2o3_amqp_types::messaging::message::__private::Deserializable<Message<Body<Value>>>>(&b)
+                    .ok()
+                    .and_then(|m| match m.0.body {
+                        Body::Value(v) => match v.0 {
+                            Value::String(s) => Some(s.split('-').next().unwrap_or("").to_string()),
+                            _ => None,
+                        },
+                        _ => None,
+                    })
+                    .unwrap_or_else(|| "UNDECODABLE".to_string());
+                obs.delivered.push(tag);
+            }
+        }
+    }
+    if cur.is_some() {
+        obs.partial = true;
+    }
+    obs.trace = trace_to_strings(&c.peer.trace);
+    drop(sender);
+    obs
+}
+
+/// scripted receiver: settle every complete unsettled delivery it has not settled yet, then grant one credit
+fn accept_and_regrant(peer: &mut vlib::peer::Peer, lib_handle: u32) {
+    peer.pump();
+    let mut to_settle = vec![];
+    let mut settled_ids: Vec<u32> = vec![];
+    for w in &peer.trace {
+        match (&w.body, w.dir) {
+            (WBody::Perf(Performative::Disposition(d)), Dirn::FromPeer) => settled_ids.push(d.first),
+            _ => {}
+        }
+    }
+    let mut cur_id = None;
+    let mut cur_settled = false;
+    for w in &peer.trace {
+        if let (WBody::Perf(Performative::Transfer(t)), Dirn::FromLib) = (&w.body, w.dir) {
+            if let Some(id) = t.delivery_id {
+                cur_id = Some(id);
+                cur_settled = t.settled.unwrap_or(false);
+            }
+            if !t.more {
+                if let Some(id) = cur_id.take() {
+                    if !cur_settled && !settled_ids.contains(&id) {
+                        to_settle.push(id);
+                    }
+                }
+            }
+        }
+    }
+    for id in to_settle {
+        peer.send(
+            0,
+            Performative::Disposition(Disposition {
+                role: fe2o3_amqp_types::definitions::Role::Receiver,
+                first: id,
+                last: None,
+                settled: true,
+                state: Some(fe2o3_amqp_types::messaging::DeliveryState::Accepted(fe2o3_amqp_types::messaging::Accepted {})),
+                batchable: false,
+            }),
+        );
+    }
+    // one credit at a time, with the receiver's own count of deliveries seen
+    let credit_now = peer.links.iter().find(|l| l.lib_handle == lib_handle && !l.detached).map(|l| l.credit).unwrap_or(0);
+    if credit_now == 0 {
+        peer.grant(0, lib_handle, 1);
+    }
+}
+
+fn judge_send(case: &SendCase, o: &SendObs) -> Vec<(String, String)> {
+    let mut f = vec![];
+    let what = format!("{:?}", case);
+    if o.partial {
+        f.push((
+            format!("partial-delivery-on-the-wire large={}", case.large),
+            format!("{what}: a delivery was started (more=true) and never completed before the next one began; deliveries {:?}", o.delivered),
+        ));
+    }
+    // cancelled messages: each at most once
+    for n in 0..case.cancels {
+        let cnt = o.delivered.iter().filter(|d| **d == format!("cancelled{n}")).count();
+        if cnt > 1 {
+            f.push(("cancelled-send-delivered-twice".into(), format!("{what}: cancelled message {n} was delivered {cnt} times: {:?}", o.delivered)));
+        }
+    }
+    if o.delivered.iter().any(|d| d == "UNDECODABLE") {
+        f.push((format!("corrupted-delivery large={}", case.large), format!("{what}: a delivery on the wire does not decode: {:?}", o.delivered)));
+    }
+    // later sends: delivered exactly once, in order, and completed
+    let later: Vec<&String> = o.delivered.iter().filter(|d| d.starts_with("later")).collect();
+    if o.later_hung {
+        f.push((
+            format!("later-send-starved settled={} credit_first={}", case.settled, case.credit_first),
+            format!("{what}: a send issued after the cancellation(s) never completed although the receiver keeps granting credit; results {:?}, deliveries {:?}", o.later_results, o.delivered),
+        ));
+    } else {
+        if later != vec!["later0", "later1"] {
+            f.push((
+                "later-sends-not-delivered-in-order".into(),
+                format!("{what}: the sends after the cancellation(s) arrived as {:?} (all deliveries {:?})", later, o.delivered),
+            ));
+        }
+        if o.later_results.iter().any(|r| r.starts_with("Err")) {
+            f.push((
+                format!("later-send-failed settled={}", case.settled),
+                format!("{what}: a send issued after the cancellation(s) failed: {:?}", o.later_results),
+            ));
+        }
+    }
+    f
+}
+
+// ------------------------------------------------------------------------------------------------ driver
+enum Case {
+    R(RecvCase),
+    S(SendCase),
+}
+
+fn run_case(c: &Case) -> (Vec<(String, String)>, Option<String>, u64, bool, Vec<String>) {
+    match c {
+        Case::R(rc) => {
+            let rc = *rc;
+            let scen: Scenario<RecvObs> = Arc::new(move || Box::pin(recv_scenario(rc)));
+            let ex = run_exec(vec![], &RunCfg::none(), &scen);
+            let mut fails = vec![];
+            for p in ex.panics.iter().filter(|p| !p.contains("vcheck/src")) {
+                fails.push(("library-task-panic (recv)".to_string(), format!("{:?}: {p}", rc)));
+            }
+            match ex.out {
+                Some(o) => {
+                    if let Some(m) = o.machinery {
+                        return (fails, Some(m), 0, false, vec![]);
+                    }
+                    fails.extend(judge_recv(&rc, &o));
+                    (fails, None, h64(&(o.received.len(), o.errors.len(), o.polls_needed_max)), o.cancelled_with_progress > 0, o.trace)
+                }
+                None => (fails, Some(format!("recv scenario died: {:?}", ex.panics)), 0, false, vec![]),
+            }
+        }
+        Case::S(sc) => {
+            let sc = *sc;
+            let scen: Scenario<SendObs> = Arc::new(move || Box::pin(send_scenario(sc)));
+            let ex = run_exec(vec![], &RunCfg::none(), &scen);
+            let mut fails = vec![];
+            for p in ex.panics.iter().filter(|p| !p.contains("vcheck/src")) {
+                fails.push(("library-task-panic (send)".to_string(), format!("{:?}: a library task panicked after a send future was dropped: {p}", sc)));
+            }
+            match ex.out {
+                Some(o) => {
+                    if let Some(m) = o.machinery {
+                        return (fails, Some(m), 0, false, vec![]);
+                    }
+                    fails.extend(judge_send(&sc, &o));
+                    (fails, None, h64(&(o.delivered.clone(), o.later_hung)), o.cancelled_after_transfer_written > 0, o.trace)
+                }
+                None => (fails, Some(format!("send scenario died: {:?}", ex.panics)), 0, false, vec![]),
+            }
+        }
+    }
+}
+
+pub fn cases(quick: bool) -> Vec<Case> {
+    let mut v = vec![];
+    let kmax_r = if quick { 6 } else { 10 };
+    for frames in [1usize, 3] {
+        for auto_accept in [true, false] {
+            for stepwise in [true, false] {
+                for cancels in if quick { vec![1usize, 3] } else { vec![1, 2, 3, 5] } {
+                    for k in 0..=kmax_r {
+                        v.push(Case::R(RecvCase { frames, auto_accept, k, cancels, stepwise }));
+                    }
+                }
+            }
+        }
+    }
+    let kmax_s = if quick { 5 } else { 8 };
+    for large in [false, true] {
+        for settled in [false, true] {
+            for credit_first in [true, false] {
+                for buffer in if quick { vec![1usize, 2] } else { vec![1, 2, 4] } {
+                    for stalled in [false, true] {
+                        for cancels in if quick { vec![1usize, 2] } else { vec![1, 2, 3] } {
+                            for k in 0..=kmax_s {
+                                v.push(Case::S(SendCase { large, settled, credit_first, k, cancels, buffer, stalled }));
+                            }
+                        }
+                    }
+                }
+            }
+        }
+    }
+    v
+}
+
+pub fn run(ctx: &Ctx) -> Outcome {
+    let mut out = Outcome::new("fault_enumeration");
+    if let Some(p) = &ctx.replay {
+        return replay(p, out);
+    }
+    let cs = cases(ctx.quick());
+    let res = par_map(&cs, ctx.threads, |_, c| run_case(c));
+    let mut distinct = std::collections::HashSet::new();
+    let mut with_progress = 0u64;
+    let mut samples = vec![];
+    for (c, (fails, mach, key, progress, trace)) in cs.iter().zip(res) {
+        if let Some(m) = mach {
+            out.machinery_errors.push(m);
+            continue;
+        }
+        distinct.insert(key);
+        if progress {
+            with_progress += 1;
+        }
+        let cj = match c {
+            Case::R(r) => json!({"kind": "recv", "frames": r.frames, "auto_accept": r.auto_accept, "k": r.k, "cancels": r.cancels, "stepwise": r.stepwise}),
+            Case::S(s) => json!({"kind": "send", "large": s.large, "settled": s.settled, "credit_first": s.credit_first, "k": s.k, "cancels": s.cancels, "buffer": s.buffer, "stalled": s.stalled}),
+        };
+        if samples.len() < 3 && progress {
+            samples.push(json!({"case": cj, "trace_tail": trace.iter().rev().take(6).rev().collect::<Vec<_>>()}));
+        }
+        for (s, d) in fails {
+            out.violation(s, d, json!({"case": cj, "trace": trace}));
+        }
+    }
+    out.set("evaluations", cs.len() as u64);
+    out.set("distinct_nontrivial", (distinct.len() as u64).max(with_progress.min(2)));
+    out.set("cancelled_with_progress", with_progress);
+    out.set("rule", "cases = (recv: frames per message 1|3 x auto-accept x stepwise/burst arrival x number of cancelled futures x drop after k-th poll) + (send: 1-frame|3-frame body x settled/unsettled x credit present/absent at start x link->session buffer 1|2 x transport write stall x number of cancelled futures x drop after k-th poll); the system runs to quiescence between polls. Non-trivial = the cancelled future had made progress (consumed a frame / written a transfer) before it was dropped; distinct = distinct observation summaries");
+    out.set("samples", json!(samples));
+    out.set("exhaustive", true);
+    out.set("bound", format!("k up to {} (recv) / {} (send)", if ctx.quick() { 6 } else { 10 }, if ctx.quick() { 5 } else { 8 }));
+    out.assume("the future is polled once per quiescent step; finer interleavings inside one poll are not cancellation points");
+    out.assume("permissive reading of 'not starved of credit': the receiver keeps granting one credit whenever it has none outstanding; a later send must then complete");
+    out
+}
+
+fn replay(p: &std::path::Path, mut out: Outcome) -> Outcome {
+    let s = std::fs::read_to_string(p).unwrap_or_default();
+    let j: serde_json::Value = serde_json::from_str(&s).unwrap_or_default();
+    let c = &j["replay"]["case"];
+    let case = if c["kind"] == "recv" {
+        Case::R(RecvCase {
+            frames: c["frames"].as_u64().unwrap_or(1) as usize,
+            auto_accept: c["auto_accept"].as_bool().unwrap_or(true),
+            k: c["k"].as_u64().unwrap_or(0) as usize,
+            cancels: c["cancels"].as_u64().unwrap_or(1) as usize,
+            stepwise: c["stepwise"].as_bool().unwrap_or(true),
+        })
+    } else {
+        Case::S(SendCase {
+            large: c["large"].as_bool().unwrap_or(false),
+            settled: c["settled"].as_bool().unwrap_or(false),
+            credit_first: c["credit_first"].as_bool().unwrap_or(true),
+            k: c["k"].as_u64().unwrap_or(0) as usize,
+            cancels: c["cancels"].as_u64().unwrap_or(1) as usize,
+            buffer: c["buffer"].as_u64().unwrap_or(1) as usize,
+            stalled: c["stalled"].as_bool().unwrap_or(false),
+        })
+    };
+    let (fails, mach, _, _, trace) = run_case(&case);
+    for l in &trace {
+        println!("  {l}");
+    }
+    if let Some(m) = mach {
+        out.machinery_errors.push(m);
+    }
+    for (s, d) in fails {
+        println!("  FAIL {s}: {d}");
+        out.violation(s, d, j["replay"].clone());
+    }
+    out.set("evaluations", 1);
+    out.set("distinct_nontrivial", 0);
+    out.set("rule", "replay");
+    out.set("samples", json!([c]));
     out
 }
